@@ -67,6 +67,9 @@ MUTATIONS = [
     ("codegen-handle-ignores-type", "src/fcp/codegen.py", 'if result.get("type") == "file":', 'if result.get("type") != "print":', ["C10"]),
     ("verifier-first-node-only", V, "            for node in fcp.get(category).attempt():\n", "            for node in fcp.get(category).attempt()[:2]:\n", ["C10", "C09"]),
     ("verifier-signal-block-unchecked", V, "        for category in self.categories:\n            self.run_checks(category, fcp).attempt()", "        for category in self.categories:\n            if category == \"signal_block\":\n                continue\n            self.run_checks(category, fcp).attempt()", ["C10"]),
+    ("cli-ignores-result", "src/fcp/__main__.py", "    if result.is_err():\n        print(logger.error(result.err().results_in(\"Failed to generate fcp\")))", "    if result.is_err() and False:\n        print(logger.error(result.err().results_in(\"Failed to generate fcp\")))", ["C10"]),
+    ("cli-cleans-output-before-verify", "src/fcp/__main__.py", "    generator_manager = GeneratorManager(make_general_verifier())\n    result = generator_manager.generate(", "    import shutil\n    shutil.rmtree(output, ignore_errors=True)\n    generator_manager = GeneratorManager(make_general_verifier())\n    result = generator_manager.generate(", ["C10"]),
+    ("cli-verifier-without-general-checks", "src/fcp/__main__.py", "    generator_manager = GeneratorManager(make_general_verifier())", "    from .verifier import Verifier\n    generator_manager = GeneratorManager(Verifier())", ["C10"]),
     ("reflection-minmax-swapped", "src/fcp/specs/struct_field.py", '"min_value": self.min_value,\n            "max_value": self.max_value,', '"min_value": self.max_value,\n            "max_value": self.min_value,', ["C12"]),
     ("reflection-chain-reversed", "src/fcp/specs/type.py", '                "size": self.size,\n            }\n        ] + self.underlying_type.reflection()', '                "size": self.size,\n            }\n        ][::-1] + self.underlying_type.reflection()[::-1]', ["C12"]),
     ("reflection-array-size-dropped", "src/fcp/specs/type.py", '                "size": self.size,', '                "size": 1 if self.size == 2 else self.size,', ["C12"]),
